@@ -23,6 +23,7 @@ import (
 	"verif/harness/internal/ev"
 	"verif/harness/internal/gen"
 	"verif/harness/internal/kchild"
+	"verif/harness/internal/oracle"
 	"verif/harness/internal/spec"
 )
 
@@ -266,6 +267,14 @@ func checkC13History(raw json.RawMessage) (ev.Result, error) {
 	}
 	// keep a private copy of the first result: later calls must not scribble over it either
 	firstCopy := append([]bpf.Instruction(nil), first...)
+	if c.K%2 == 1 && ferr == nil && len(first) > 0 {
+		// the caller edits the program it was given (it owns it): later compilations must not be affected
+		for k := range first {
+			first[k] = bpf.RetConstant{Val: 0xdead0000 + uint32(k)}
+		}
+		_ = append(first, bpf.RetConstant{Val: 0xdeadffff})
+		first = append([]bpf.Instruction(nil), firstCopy...)
+	}
 	for k := 1; k < c.K; k++ {
 		for _, o := range c.Others {
 			osp := o.ToSeccomp()
@@ -518,6 +527,31 @@ func checkC13Text(raw json.RawMessage) (ev.Result, error) {
 		if a.String() != seccomp.Action(c.Flag).String() {
 			return ev.Result{}, fmt.Errorf("Action(%#x).String() is not stable", c.Flag)
 		}
+		// what a conversion returns belongs to the caller: writing into it (in place, or behind its end) must not show
+		// in any later conversion
+		for _, act := range []seccomp.Action{a, seccomp.Action(oracle.ActionList()[int(c.Flag)%7])} {
+			want := act.String()
+			t1, err1 := act.MarshalText()
+			if err1 == nil {
+				for k := range t1 {
+					t1[k] = 'X'
+				}
+				_ = append(t1, "-scribble"...)
+				t2, _ := act.MarshalText()
+				if string(t2) != want || act.String() != want {
+					return ev.Result{}, fmt.Errorf("after the caller wrote into the bytes returned by Action(%#x).MarshalText(), the next conversion gives %q / %q, the text form is %q", uint32(act), t2, act.String(), want)
+				}
+			}
+		}
+		if b2, err := seccomp.FilterFlag(c.Flag).MarshalText(); err == nil {
+			for k := range b2 {
+				b2[k] = 'X'
+			}
+			_ = append(b2, "-scribble"...)
+			if b3, _ := seccomp.FilterFlag(c.Flag).MarshalText(); string(b3) != first {
+				return ev.Result{}, fmt.Errorf("after the caller wrote into the bytes returned by FilterFlag(%#x).MarshalText(), the next conversion gives %q instead of %q", c.Flag, b3, first)
+			}
+		}
 	}
 	bits := 0
 	for v := c.Flag & 3; v != 0; v &= v - 1 {
@@ -748,4 +782,17 @@ func TestC14FirstUse(t *testing.T) {
 		}
 		return c
 	}, checkC13FirstUse)
+}
+
+// compilation in other processes (other build, enclosing filters): "identical instruction sequences ... across processes"
+func TestC13OtherProcesses(t *testing.T) {
+	check := checkChildCompile("C13")
+	ev.Register("C13", "other-process", check)
+	seed := int(shardSeed() % 1000000)
+	for k, cfg := range childConfigs {
+		c := childCompileCase{GOARCH: cfg.goarch, Outer: cfg.outer, Corpus: childCorpusC01(ev.Scale(30, 300), seed+3000*k), Seed: uint64(seed)}
+		if !ev.CheckOne(t, "C13", "other-process", c, check) {
+			return
+		}
+	}
 }
